@@ -251,12 +251,27 @@ class Defn:
                     adj = rng.choice([["8", "-16"], ["-8", "16"], ["1", "-3"], ["8", "-8"]])
                 if self.adj_pool and rng.random() < 0.7:
                     adj = list(rng.choice(self.adj_pool))
-                if kind in ("str", "strraw"):
+                sizes = None
+                if rng.random() < 0.3:
+                    # the length is looked up from criteria on the length field (entries of value 0 and of a length that is
+                    # not a whole number of bytes included; a later entry overlaps an earlier one)
+                    from harness.props import c06
+                    sizes = {0: 0, 1: 8, 2: 16, 3: 12, 4: 32}
+                    num = (lambda v: f"f{v}/1") if rng.random() < 0.7 else (lambda v: f"i{v}")
+                    dls = [["dl", [c06.cmp_sx(ln, "==", str(k), True)], num(v)] for k, v in sizes.items()]
+                    dls.append(["dl", [c06.cmp_sx(ln, ">=", "3", True), c06.cmp_sx(ln, "<=", "9", True)], num(40)])
+                    if kind in ("str", "strraw"):
+                        se = ["str", S("ISO-8859-1"), "-", "-", dls, "1", "-", "-", "-", "-"]
+                    else:
+                        se = ["bin", "-", "-", "1", dls, "-"]
+                    adj = ["1", "0"]
+                elif kind in ("str", "strraw"):
                     se = ["str", S("ISO-8859-1"), "-", S(ln), "-", B(kind == "str"), adj, "-", "-", "-"]
                 else:
                     se = ["bin", "-", S(ln), B(kind == "bin"), "-", adj]
                 pt = PT(tn, ["pt", S(tn), "plain", se], None, None, dyn=ln)
                 pt.adj = (int(adj[0]), int(adj[1]))
+                pt.sizes = sizes
                 c.entries.append(("p", fn, pt))
             elif r < 0.3:
                 # context-calibrated byte depending on an earlier control field
@@ -267,6 +282,12 @@ class Defn:
                 ctx = [["ctx", [c06.cmp_sx(sel, "==", "1", True)], ["poly", [fnum(10), "0"], [fnum(2), "1"]]],
                        ["ctx", [c06.cmp_sx(sel, ">=", "1", True), c06.cmp_sx(fn, "<", "128", False)],
                         ["poly", [fnum(Fraction(1, 4)), "1"]]]]
+                if rng.random() < 0.3:
+                    # the context given as a boolean expression instead of a comparison
+                    be = rng.choice([c06.cond_sx(sel, "==", None, "1", True, False),
+                                     ["and", [c06.cond_sx(sel, ">=", None, "1", True, False),
+                                              c06.cond_sx(sel, "<", None, "2", True, False)], []]])
+                    ctx[0] = ["ctx", [["bexpr", be]], ctx[0][2]]
                 default = "-" if rng.random() < 0.5 else ["poly", [fnum(-1), "0"], [fnum(1), "1"]]
                 tn = f"{fn}_T"
                 if self.wide_ctx and rng.random() < 0.3:
@@ -399,6 +420,8 @@ class Defn:
             if pt.dyn is not None:
                 L = values.get(pt.dyn, 0)
                 nb = pt.adj[0] * L + pt.adj[1]
+                if getattr(pt, "sizes", None) is not None:
+                    nb = pt.sizes.get(L, 40 if 3 <= L <= 9 else 0)
                 bits += rbits(rng, max(0, nb))
                 continue
             cv = ctrl.get(name)
